@@ -913,6 +913,7 @@ func (c *Ctx) canonicalRefs(reach []*core.FuncInfo) {
 			n++
 			ref := core.Unparen(call.Args[2])
 			key := fi.QName() + "/" + callee.Name()
+			c.baseNameRule(fi, call, ref, key)
 			ok, how := c.isCanonicalRef(fi, ref, call)
 			if !ok {
 				if why := refTransientWhy; c.refIsFirstParent(fi, ref) {
@@ -1224,7 +1225,131 @@ func (c *Ctx) isCanonicalRef(fi *core.FuncInfo, ref ast.Expr, site *ast.CallExpr
 			return true, "proven top-level by the dominating test on path.Dir(ref) == '#/definitions'"
 		}
 	}
+	// (c) the reference already held at this key, with a prefix (the document part) stripped and nothing else:
+	// spec.MustCreateRef(strings.TrimPrefix(<w>.String(), X)) at the key k of `for k, w := range <index of $refs>`
+	if c.isStrippedSameRef(fi, ref, site) {
+		return true, "the $ref already at this key with its document part stripped (its fragment is unchanged: canonical exactly when it was)"
+	}
 	return false, ""
+}
+
+// refStringSource: the expression (through single-assignment locals) is <x>.String() on a spec.Ref, possibly inside
+// strings.TrimPrefix(·, X); returns the receiver x and whether only prefix stripping was applied.
+func (c *Ctx) refStringSource(fi *core.FuncInfo, e ast.Expr) (recv ast.Expr, onlyStrip bool) {
+	info := c.info(fi)
+	onlyStrip = true
+	for i := 0; i < 6; i++ {
+		e = core.Unparen(e)
+		if o := core.ObjOf(info, e); o != nil {
+			if _, isID := e.(*ast.Ident); isID {
+				defs := c.P.Locals(fi).Defs[o]
+				if len(defs) == 1 && defs[0].Kind == core.DefAssign && defs[0].Expr != nil {
+					e = defs[0].Expr
+					continue
+				}
+			}
+			return nil, false
+		}
+		call, ok := e.(*ast.CallExpr)
+		if !ok {
+			return nil, false
+		}
+		if cal := c.P.CalleeAny(fi, call); cal != nil && cal.FullName() == "strings.TrimPrefix" && len(call.Args) == 2 {
+			e = call.Args[0]
+			continue
+		}
+		if sel, isSel := core.Unparen(call.Fun).(*ast.SelectorExpr); isSel && sel.Sel.Name == "String" && len(call.Args) == 0 &&
+			core.IsSpecType(info.TypeOf(sel.X), "Ref") {
+			return sel.X, onlyStrip
+		}
+		return nil, false
+	}
+	return nil, false
+}
+
+// isStrippedSameRef: see form (c) of isCanonicalRef.
+func (c *Ctx) isStrippedSameRef(fi *core.FuncInfo, ref ast.Expr, site *ast.CallExpr) bool {
+	info := c.info(fi)
+	ref = core.Unparen(ref)
+	if o := core.ObjOf(info, ref); o != nil {
+		if defs := c.P.Locals(fi).Defs[o]; len(defs) == 1 && defs[0].Kind == core.DefAssign && defs[0].Expr != nil {
+			ref = core.Unparen(defs[0].Expr)
+		}
+	}
+	mk, ok := ref.(*ast.CallExpr)
+	if !ok || len(mk.Args) != 1 {
+		return false
+	}
+	if cal := c.P.CalleeAny(fi, mk); cal == nil || cal.FullName() != "github.com/go-openapi/spec.MustCreateRef" {
+		return false
+	}
+	recv, onlyStrip := c.refStringSource(fi, mk.Args[0])
+	if recv == nil || !onlyStrip {
+		return false
+	}
+	// the site rewrites the key of the loop whose value is that reference
+	rs, _ := c.parents(fi).Enclosing(site, func(n ast.Node) bool { _, r := n.(*ast.RangeStmt); return r }).(*ast.RangeStmt)
+	if rs == nil || rs.Key == nil || rs.Value == nil || len(site.Args) < 2 {
+		return false
+	}
+	return core.ObjOf(info, site.Args[1]) != nil && core.ObjOf(info, site.Args[1]) == core.ObjOf(info, rs.Key) &&
+		core.ObjOf(info, recv) != nil && core.ObjOf(info, recv) == core.ObjOf(info, rs.Value)
+}
+
+// baseNameRule (C01, REF-BASENAME): a $ref that is rebuilt as '#/definitions/' + path.Base(<an existing $ref>) keeps
+// designating the same schema only when that $ref is a direct child of the definitions: the write is dominated by a
+// test of path.Dir of the same string against the definitions prefix. (Defect F24: with an empty base path every
+// anonymous pointer '#/definitions/a/properties/b' was re-pointed to the unrelated definition 'b'.)
+func (c *Ctx) baseNameRule(fi *core.FuncInfo, site *ast.CallExpr, ref ast.Expr, key string) {
+	info := c.info(fi)
+	e := core.Unparen(ref)
+	if o := core.ObjOf(info, e); o != nil {
+		if defs := c.P.Locals(fi).Defs[o]; len(defs) == 1 && defs[0].Kind == core.DefAssign && defs[0].Expr != nil {
+			e = core.Unparen(defs[0].Expr)
+		}
+	}
+	var based ast.Expr // the argument of path.Base
+	ast.Inspect(e, func(n ast.Node) bool {
+		call, ok := n.(*ast.CallExpr)
+		if !ok || len(call.Args) != 1 {
+			return true
+		}
+		if cal := c.P.CalleeAny(fi, call); cal != nil && (cal.FullName() == "path.Base" || cal.FullName() == "path/filepath.Base") {
+			if recv, _ := c.refStringSource(fi, call.Args[0]); recv != nil {
+				based = call.Args[0]
+			}
+		}
+		return true
+	})
+	if based == nil {
+		return
+	}
+	recv, _ := c.refStringSource(fi, based)
+	guarded := false
+	for _, cd := range c.conds(fi, site) {
+		if cd.Kind != core.CondBool || cd.Neg {
+			continue
+		}
+		be, ok := core.Unparen(cd.Expr).(*ast.BinaryExpr)
+		if !ok || be.Op != token.EQL {
+			continue
+		}
+		for _, side := range []ast.Expr{be.X, be.Y} {
+			dir, isCall := core.Unparen(side).(*ast.CallExpr)
+			if !isCall || len(dir.Args) != 1 {
+				continue
+			}
+			if cal := c.P.CalleeAny(fi, dir); cal == nil || cal.FullName() != "path.Dir" {
+				continue
+			}
+			if r2, _ := c.refStringSource(fi, dir.Args[0]); r2 != nil && sameExpr(r2, recv) {
+				guarded = true
+			}
+		}
+	}
+	c.S.Decide(guarded, "C01", "REF-BASENAME", key, c.P.Pos(site.Pos()),
+		"the last token of "+exprStr(recv)+" is used as a definition name under a test that its parent is the definitions container",
+		"the $ref written here is '#/definitions/' + path.Base("+exprStr(based)+") with no test that path.Dir of that $ref is the definitions container: a JSON pointer below a definition ('#/definitions/a/properties/b') is re-pointed to the unrelated definition named after its last token ('#/definitions/b')")
 }
 
 // progressRule (C06): the removal pass reports progress only together with a deletion from the definitions.
